@@ -265,6 +265,13 @@ def export_geogram_ascii(mesh : RawMeshData, path):
         if hasattr(mesh, "faces") and not mesh.faces.empty():
             n_face = len(mesh.faces)
             f.write(f"[ATTS]\n\"GEO::Mesh::facets\"\n{n_face}\n")
+            if any((len(face)!=3 for face in mesh.faces)):
+                # facets are not all triangles: the index of the first corner of each facet has to be provided
+                f.write("[ATTR]\n\"GEO::Mesh::facets\"\n\"GEO::Mesh::facets::facet_ptr\"\n\"index_t\"\n4\n1\n")
+                ptr = 0
+                for face in mesh.faces:
+                    f.write(f"{ptr}\n")
+                    ptr += len(face)
             for attr_key in mesh.faces.attributes:
                 attr = mesh.faces.get_attribute(attr_key)
                 export_attribute(f, n_face, "GEO::Mesh::facets", attr, attr_key)
